@@ -25,8 +25,9 @@ class Case:
 
     def __init__(self, line):
         t = line.split()
-        self.ok = len(t) >= 2 and t[0] == "route" and t[1] in ("s", "d")
+        self.ok = len(t) >= 2 and t[0] == "route" and re.match(r"^(s|d|[xy]\d*)$", t[1]) is not None
         self.mode = t[1] if self.ok else "?"
+        self.race = self.ok and self.mode[0] in "xy"    # events after S run concurrently with shutdown
         self.apps = []        # (name, kind, cap, policy)
         self.loggers = []     # (name, level, additive, [apps])
         self.events = []      # (thread, id, target, level, after_shutdown)
@@ -56,6 +57,10 @@ class Case:
                     after = True
                     self.ops.append(["S"])
                     i += 1
+                elif k == "D":
+                    int(t[i + 1])
+                    self.ops.append(t[i:i + 2])
+                    i += 2
                 else:
                     raise ValueError
         except (ValueError, IndexError):
@@ -98,10 +103,17 @@ def expected_delivery(case, target, level, app):
 def parse_output(out):
     """'s0: T0=0l,0t T1=- ; s1: ... ; END=disc' -> ({app: {thread: [(id, via)]}}, end, stray)"""
     res, end, stray = {}, None, 0
+    stuck_holder = res.setdefault("#stuck", [])
     for part in out.split(" ; "):
         part = part.strip()
         if part.startswith("END="):
             end = part[4:]
+            continue
+        if part.startswith("STUCK="):
+            stuck_holder.append(int(part[6:]))
+            continue
+        if part.startswith("LATE="):
+            stray -= int(part[5:])      # negative: events that surfaced after a stream disconnected
             continue
         m = re.match(r"^(s\d+):(.*)$", part)
         if not m:
@@ -241,8 +253,15 @@ class RouteEngine(Engine):
         hits = []
         if end != "disc":
             hits.append(("no-disconnect", "a custom stream did not disconnect after shutdown (END=%s)" % end))
-        if stray:
+        if stray > 0:
             hits.append(("phantom", "%d received message(s) from unknown threads" % stray))
+        stuck = sum(got.pop("#stuck", []))
+        if stuck:
+            hits.append(("emitter-stuck-after-shutdown", "%d emitting thread(s) stayed blocked inside a logging call after "
+                         "shutdown/drop returned, until the custom stream receiver was dropped" % stuck))
+        if stray < 0:
+            hits.append(("late-after-disconnect", "%d event(s) were accepted into a custom stream after it had reported "
+                         "Disconnected (lost to a consumer that stops at the disconnect)" % -stray))
         ev_by_id = {e[1]: e for e in c.events}
         for a in c.apps:
             name = a[0]
@@ -268,8 +287,10 @@ class RouteEngine(Engine):
             for e in c.events:
                 th, i, target, level, after = e
                 gl, gt = (i, "l") in received, (i, "t") in received
-                if gl != gt:
+                if gl != gt and not (after and c.race):
                     hits.append(("log-tracing-differ", "%s: event %d (%s %s) log=%s tracing=%s" % (name, i, target, level, gl, gt)))
+                if after and c.race:
+                    continue        # judged below: prefix rule
                 if after:
                     if gl or gt:
                         hits.append(("post-shutdown-delivery", "%s received event %d emitted after shutdown returned" % (name, i)))
@@ -286,4 +307,40 @@ class RouteEngine(Engine):
                     else:
                         clause = "lost-or-misrouted" if want else "misrouted"
                     hits.append((clause, what + " (most specific logger: %r)" % (overall[0] if overall else "root")))
+            if c.race:
+                # events emitted concurrently with shutdown: per thread, what was delivered must be a
+                # PREFIX of what routing selects (FIFO channel, sequential thread, nothing after a
+                # failed send) - no gap, no duplicate, no reordering, log before tracing
+                threads = sorted(set(e[0] for e in c.events))
+                for th in threads:
+                    sel = []
+                    for e in c.events:
+                        if e[0] == th and e[4] and expected_delivery(c, e[2], e[3], name)[0]:
+                            sel += [(e[1], "l"), (e[1], "t")]
+                    late = [x for x in per.get(th, []) if x[0] in ev_by_id and ev_by_id[x[0]][4]]
+                    if late != sel[:len(late)]:
+                        hits.append(("shutdown-race-gap", "%s thread %d: events emitted during shutdown delivered as %r, "
+                                     "not a prefix of the selected sequence %r" % (name, th, late[:12], sel[:12])))
         return hits
+
+    # ---- race scenarios (monitor only) ---------------------------------------------------
+    def gen_race(self, rng):
+        """all-wired configuration, a short first phase, then many events racing with shutdown/drop"""
+        mode = rng.pick(["x", "y"]) + str(rng.pick([0, 0, 1, 2, 5, 10, 20, 50, 100, 200]))
+        toks = ["route", mode]
+        napp = rng.weighted([(1, 3), (2, 3), (3, 1)])
+        apps = ["s%d" % i for i in range(napp)]
+        for a in apps:
+            toks += ["A", a, rng.weighted([("f", 3), ("c", 2)]), str(rng.pick([1, 1, 2, 4, 16, 64])), "b"]
+        toks += ["L", "root", rng.pick(["info", "debug", "trace"]), "1", "1", rng.pick(apps)]
+        for n in rng.pick([[], ["app"], ["app", "app::db"], ["app::db"]]):
+            k = rng.pick([1, 1, 2])
+            toks += ["L", n, rng.pick(["warn", "info", "trace"]), "1" if rng.chance(2, 3) else "0", str(k)] + [rng.pick(apps) for _ in range(k)]
+        tg = ["app", "app::db", "app::db::pool", "other", "apple"]
+        nth = rng.pick([1, 2, 3])
+        for i in range(rng.pick([0, 2, 6])):
+            toks += ["E", str(rng.below(nth)), rng.pick(tg), rng.pick(["error", "warn", "info"])]
+        toks += ["S"]
+        for i in range(rng.pick([10, 30, 60, 120])):
+            toks += ["E", str(rng.below(nth)), rng.pick(tg), rng.pick(["error", "warn", "info"])]
+        return " ".join(toks)
